@@ -3,7 +3,8 @@
 Three layers, all executing real ppci code on symbolic values:
  1. every bit-field of every Token class of every ISA: set the field to a symbolic value on a
     token with symbolic previous content, read it back;
- 2. every relocation type (riscv, rvc, arm, thumb, x86_64, generic data) applied directly with
+ 2. every relocation type with an entry in ref/relocspec.py (riscv, rvc, arm, thumb, x86_64, avr, msp430,
+    mcs6500, or1k, mips, microblaze, xtensa, m68k, generic little-endian data) applied directly with
     symbolic symbol address / field address / addend on the base encoding produced by the real
     instruction class that emits it; oracle = ISA manual field layout (ref/relocspec.py);
  3. every instruction class with an integer operand: encode() with a symbolic immediate
@@ -21,9 +22,9 @@ from props import _reloc
 PROPERTY = "C10"
 LEVEL = "model_checking"
 BOUNDS = {"quick": {"field value": "[-2**(n+2), 2**(n+2)] for an n-bit field, token content: every value",
-                    "relocations": "S, P: every 32-bit address (48-bit for x86_64, 64-bit+ for abs64), addend +-2**31 where honoured",
+                    "relocations": "S, P: every address of the ISA's width (32 bit; 48 bit for x86_64; 16 bit for avr, msp430, mcs6500; 64-bit+ for abs64), addend +-2**31 where honoured; avr..m68k: one instruction class per relocation type",
                     "instruction immediates": "[-2**40, 2**40], ISAs: riscv, riscv:rvc, arm, arm:thumb"},
-          "thorough": {"field value": "same", "relocations": "same",
+          "thorough": {"field value": "same", "relocations": "same addresses; every instruction class / addressing mode that emits the relocation",
                        "instruction immediates": "[-2**40, 2**40], every ISA registered in ppci.arch"}}
 OUTSIDE = ["relocation types without an entry in ref/relocspec.py (listed in evidence as unclaimed_relocations)",
            "operands that reach the encoder through the assembler's text path (str -> int parsing)",
@@ -183,7 +184,8 @@ def jobs(tier, seed):
                 continue
             js.append(("mk_prim", dict(fn=fn, bits=b)))
     for a in _reloc.ARCHS:
-        for s in _reloc.sites(a):
+        # new ISAs: one instruction class per relocation type in quick, every class in thorough
+        for s in _reloc.tier_sites(a, tier):
             js.append(("mk_reloc", s))
     from props import _imm
     js += _imm.jobs(tier)
